@@ -87,6 +87,8 @@ func genCore(repo string) (src string, notes []string, err error) {
 	sm := loadExisting(&notes, repo, "x/sequencer/module.go")
 	// the standalone governance punishment (legacy gov route): handler + proposal content
 	sp := loadExisting(&notes, repo, "x/sequencer/proposal_handler.go")
+	// parameter updates (Core.Op.setSeqParams)
+	spar := loadExisting(&notes, repo, "x/sequencer/keeper/msg_server_update_params.go", "x/sequencer/keeper/params.go")
 	stp := loadExisting(&notes, repo, "x/sequencer/types/proposal_punish_sequencer.go")
 	st := loadExisting(&notes, repo,
 		"x/sequencer/types/sequencer.go", "x/sequencer/types/params.go", "x/sequencer/types/msg_bond.go",
@@ -324,6 +326,16 @@ func genCore(repo string) (src string, notes []string, err error) {
 		{sp, []coreFn{
 			{"NewSequencerProposalHandler", "newSequencerProposalHandler"},
 			{"HandlePunishSequencerProposal", "handlePunishSequencerProposal"},
+		}},
+		{spar, []coreFn{
+			{"msgServer.UpdateParams", "msgUpdateSeqParams"},
+			{"Keeper.ValidateParams", "validateSeqParams"},
+			{"Keeper.SetParams", "setSeqParamsK"},
+		}},
+		{st, []coreFn{
+			{"Params.ValidateBasic", "seqParamsValidateBasic"},
+			{"validateTime", "seqParamsValidateTime"},
+			{"validateLivenessSlashMultiplier", "seqParamsValidateMultiplier"},
 		}},
 		{stp, []coreFn{
 			{"PunishSequencerProposal.ProposalRoute", "punishProposalRoute"},
